@@ -682,6 +682,28 @@ def call_module(it, fv, args, kwargs):
             ag = npm.fz(a0)
             return npm.np_sum(ctx, a0.n, lambda k: ag(k))
         raise Unsupported('np.sum form')
+    if name == 'concatenate' and len(args) == 1 and isinstance(a0, (list, tuple)) and a0 and all(isinstance(x, SArr) and x.ndim == 1 for x in a0):
+        # np.concatenate of 1-d arrays: element k belongs to the first part whose cumulated length exceeds k
+        parts = [(npm.fz(x), x.n) for x in a0]
+        total = parts[0][1]
+        for _, n_ in parts[1:]:
+            total = scalar_arith('+', total, n_)
+
+        def elc(k):
+            off = 0
+            r = None
+            chain = []
+            for g_, n_ in parts:
+                chain.append((off, n_, g_))
+                off = scalar_arith('+', off, n_)
+            # built from the last part backwards
+            off_l, n_l, g_l = chain[-1]
+            r = g_l(scalar_arith('-', k, off_l))
+            for off_p, n_p, g_p in reversed(chain[:-1]):
+                r = zite(tz(k) < tz(scalar_arith('+', off_p, n_p)), g_p(scalar_arith('-', k, off_p)), r, fp)
+            return r
+        dt = 'real' if any(x.dtype == 'real' for x in a0) else a0[0].dtype
+        return npm.new_arr(ctx, (total,), elc, dt, 'concat')
     if name == 'dot':
         return it.matmul(args[0], args[1])
     if name == 'repeat' and len(args) == 2 and isinstance(a0, SArr) and a0.ndim == 1 and (isinstance(args[1], int) or is_int_term(args[1])):
